@@ -128,6 +128,11 @@ def generate(seed, idx, tier):
              'entry': rng.choice(entries)}
         if o['entry'] == 'wrg-iter':
             o['cuts'] = [rng.random() for _ in range(rng.choice((0, 1, 2)))]
+        if o['op'] == 'append' and o['entry'] == 'write' and \
+                rng.random() < 0.15:
+            # carried out by a different process: whatever this process
+            # remembers about the dataset is not refreshed by it
+            o['other'] = True
         o.update(gen_wopts(rng, f['nrows'], has_cat, knobs))
         if o['op'] == 'failed_append':
             o['at'] = rng.random()
@@ -346,9 +351,17 @@ def _execute(case, fs, path, res, cnt, faults, probes, bump, violation,
                 fs.begin_op(plan, fault_rng=drng, rplan=rplan)
                 err = None
                 try:
-                    D.do_append(fs, path, wdf, op, scheme, parts,
-                                pf=long_pf if op.get('entry') != 'write'
-                                else None)
+                    if op.get('other') and not plan and not rplan:
+                        out = D.in_other_process(
+                            fs, lambda: D.do_append(fs, path, wdf, op,
+                                                    scheme, parts) and None)
+                        bump(probes, 'append_by_another_process')
+                        if out[0] == 'exc':
+                            raise D.ReaderFailed('%s: %s' % out[1:])
+                    else:
+                        D.do_append(fs, path, wdf, op, scheme, parts,
+                                    pf=long_pf if op.get('entry') != 'write'
+                                    else None)
                 except SimCrash as e:
                     err = e
                     fs.resolve_crash(drng)
